@@ -54,8 +54,13 @@ KNOWN_KEYS = {
     "0006": ["extensionName", "delimiter"],
     "0007": ["extensionName", "delimiter", "tupleSize", "numberOfTuples", "zeroPadding", "reverseObjectRoot"],
 }
-SLUG_NEW = {4: "c11-cfg-bounds", 5: "c11-cfg-short-root", 6: "c11-cfg-0007-defaults", 7: "c11-cfg-array"}
-SLUG_MAP = {3: "c11-0003-zero-tuples", 4: "c11-casefold-index", 5: "c11-0007-control-chars"}
+# known-finding classes by bit of Corr.CheckLayout new_mask / path_mask.  (Numbers above 32,
+# shortObjectRoot with a fully used digest, 0003 without tuples and 0007 control characters were
+# known until the fixes d1aca14, a91c61b, e1de1bb, 970818d: those inputs are still generated and
+# must now pass.)
+SLUG_NEW = {4: "c11-cfg-0007-defaults", 5: "c11-cfg-array"}
+SLUG_MAP = {3: "c11-casefold-index"}
+WF_NEW = 64      # bit 6 of new_mask: the strings of the configuration are well-formed
 
 
 class Invalid(str):
@@ -82,6 +87,10 @@ BASE_IDS = [
     "Α" + SIGMA, "ǅ", "ﬁ", "ŉx", "KEDU/é", "\U0001f600", "a\U0001f600:b", "é:É",
     "1", "12", "123", "1234", "12345678", "123456789", "1234567890",
 ]
+
+
+# ends of the range 0x20..0x7F of extension 0007 (regression inputs of fix 970818d)
+CTRL_IDS = ["\u001f", "a:\u001f", "a: \u007f", "\u0000:a", "a:b\u0001c", "ns:12\u000034", "\u0080", " \u007f"]
 
 
 def long_ids():
@@ -187,7 +196,28 @@ def gen_cases(ctx):
                     if short is not None:
                         c["shortObjectRoot"] = short
                     cases.append((k, c, ["object-01", "", "é"]))
-        sel = [(None, None, None), ("sha256", 3, 3), ("md5", 2, 15), ("md5", 2, 16), ("sha256", 0, 0), ("sha512", 1, 1), ("sha1", 5, 8),
+            # one character less / more than the whole digest, with and without shortObjectRoot
+            # (regression inputs of fix a91c61b: only the exact product is forbidden, only with shortObjectRoot)
+            for ts, nt in [(a_, b_) for a_ in range(1, 33) for b_ in range(1, 33) if a_ * b_ in (L - 1, L, L + 1)]:
+                for short in ([None] if k == "0003" else [True, False]):
+                    c = {"extensionName": name(k), "digestAlgorithm": alg, "tupleSize": ts, "numberOfTuples": nt}
+                    if short is not None:
+                        c["shortObjectRoot"] = short
+                    cases.append((k, c, ["object-01"] if (ts, nt) in ((1, L - 1), (L - 1, 1), (7, 9), (3, 13), (5, 19), (2, L // 2), (L // 2, 2), (4, L // 4)) else []))
+        # numbers above the documented bound 32 (regression inputs of fix d1aca14; with huge factors the
+        # usize product used to overflow)
+        for ts, nt in [(33, 1), (1, 33), (33, 33), (64, 1), (1, 64), (64, 64), (33, 0), (0, 33), (32, 33), (33, 32), (128, 1), (1, 128),
+                       (2 ** 64 - 1, 2 ** 64 - 1), (2 ** 64 - 1, 0), (0, 2 ** 64 - 1), (2 ** 64 - 1, 2), (2, 2 ** 64 - 1),
+                       (2 ** 63, 2 ** 63), (2 ** 32, 2 ** 32 + 1), (2 ** 16, 2 ** 48), (32, 32), (32, 1), (1, 32), (32, 2), (32, 4)]:
+            for alg in (None, "sha512", "md5"):
+                for short in ([None] if k == "0003" else [None, True]):
+                    c = {"extensionName": name(k), "tupleSize": ts, "numberOfTuples": nt}
+                    if alg is not None:
+                        c["digestAlgorithm"] = alg
+                    if short is not None:
+                        c["shortObjectRoot"] = short
+                    cases.append((k, c, ["object-01"]))
+        sel = [(None, None, None), ("sha256", 3, 3), ("md5", 2, 15), ("md5", 2, 16), ("sha256", 0, 0), ("md5", 0, 0), ("sha512", 1, 1), ("sha1", 5, 8),
                ("sha512/256", 32, 2), ("blake2b-512", 32, 4), ("blake2b-160", 1, 32), ("blake2b-256", 7, 9), ("blake2b-384", 3, 32),
                ("sha256", 33, 1), ("sha256", 1, 33), ("sha256", 64, 1), ("md5", 1, 1), ("sha1", 40, 1), ("sha512", 2, 2)]
         if not quick:
@@ -266,11 +296,11 @@ def gen_cases(ctx):
         c = {"extensionName": name("0007"), "delimiter": d, "tupleSize": ts, "numberOfTuples": nt,
              "zeroPadding": pad, "reverseObjectRoot": rev}
         ids = uniq(delim_ids(d, rng)[:24 if quick else 99] + width_ids(ts * nt, rng) + BASE_IDS[:16 if quick else 99] + BASE_IDS[-7:]
-                   + (BASE_IDS[34:52:3] if quick else []) + random_ids(rng, nrand, list(d)))
+                   + (BASE_IDS[34:52:3] if quick else []) + CTRL_IDS + random_ids(rng, nrand, list(d)))
         if quick and (ts, nt) == (32, 32):
             ids = ids[:25]
         cases.append(("0007", c, ids))
-    cases.append(("0007", {"extensionName": name("0007"), "delimiter": ":"}, uniq(BASE_IDS + longs[:6] + delim_ids(":", rng))))
+    cases.append(("0007", {"extensionName": name("0007"), "delimiter": ":"}, uniq(BASE_IDS + CTRL_IDS + longs[:6] + delim_ids(":", rng))))
     for ts in list(range(0, 35)) + [2 ** 32, 2 ** 64 - 1, 2 ** 64]:
         for nt in ([1, 3, 32] if quick else [0, 1, 3, 32, 33]):
             cases.append(("0007", {"extensionName": name("0007"), "delimiter": ":", "tupleSize": ts, "numberOfTuples": nt}, []))
@@ -443,6 +473,20 @@ def id_category(s):
     return cats or ["plain"]
 
 
+def regression_classes(k, cfgv):
+    """which formerly known configuration class (now must-pass) a generated configuration belongs to"""
+    out = []
+    if k in ("0003", "0004") and isinstance(cfgv, dict):
+        ts, nt = cfgv.get("tupleSize", 3), cfgv.get("numberOfTuples", 3)
+        if all(isinstance(v, int) and not isinstance(v, bool) for v in (ts, nt)):
+            if ts > 32 or nt > 32:
+                out.append("bounds")
+            a = cfgv.get("digestAlgorithm", "sha256")
+            if k == "0004" and cfgv.get("shortObjectRoot") is True and a in HEXLEN and ts * nt == HEXLEN[a] and ts <= 32 and nt <= 32:
+                out.append("short_root")
+    return out
+
+
 # --------------------------------------------------------------------------- function level
 
 def function_level(ctx, vh, known_ids, stats):
@@ -467,13 +511,15 @@ def function_level(ctx, vh, known_ids, stats):
         m = masks[0]
         stats["new_" + o["new"]] += 1
         stats["ext_" + k + "_configs"] += 1
+        for cls in regression_classes(k, cfgv):
+            stats["regress_" + cls + "_configs_" + o["new"]] += 1
         ctx.count(("new", k, text, o["new"]), nontrivial=True,
                   sample={"ext": k, "config": text, "new": o["new"], "mask": m})
         det = bool(m & 4)
         oracle_ok = bool(m & 2) and bool(m & 8)
         model_ok = bool(m & 1)
         inp = {"level": "StorageLayout::new", "ext": EXTS[k][1], "config": text}
-        if not m & 256:
+        if not m & WF_NEW:
             common.corr_break(ctx, "Corr.CheckLayout: driver inputs not well-formed (strings of the configuration)", {"input": inp, "mask": m})
             continue
         if det and not oracle_ok:
@@ -502,6 +548,10 @@ def function_level(ctx, vh, known_ids, stats):
             stats["path_" + ("ok" if "ok" in po else "panic")] += 1
             for c in id_category(s):
                 stats["id_" + c] += 1
+            if k == "0003" and isinstance(cfgv, dict) and cfgv.get("tupleSize") == 0:
+                stats["regress_0003_zero_tuples_pairs"] += 1
+            if k == "0007" and any(ord(ch) < 32 for ch in s):
+                stats["regress_0007_control_pairs_" + ("ok" if "ok" in po else "panic")] += 1
             ctx.count(("map", k, text, s, "ok" in po), nontrivial=True,
                       sample={"ext": k, "config": text, "id": s, "observed": po, "mask": pm})
             inp = {"level": "map_object_id", "ext": EXTS[k][1], "config": text, "id": s, "digest": d}
@@ -537,6 +587,9 @@ SYS_LAYOUTS = [   # (extension, configuration, ids that are also valid relative 
     ("0003", None, ["object-01", "info:example/test-123", "..Hor/rib:l\u00e8-$id", "abcdefghij" * 26, "\u00e9" * 40]),
     ("0003", {"extensionName": n("0003"), "digestAlgorithm": "sha512", "tupleSize": 1, "numberOfTuples": 4},
      ["object-01", "a/b", "\u0001", ":" * 34]),
+    # 0003 without tuples: the object sits in its encapsulation directory under the storage root (fix e1de1bb)
+    ("0003", {"extensionName": n("0003"), "digestAlgorithm": "md5", "tupleSize": 0, "numberOfTuples": 0},
+     ["object-01", "info:example/test-123", "..Hor/rib:l\u00e8-$id", "abcdefghij" * 10 + "a", "a" * 100, "\u0001"]),
     ("0004", None, ["object-01", "info:example/test-123", "\u06f5\u0768\u076f"]),
     ("0004", {"extensionName": n("0004"), "digestAlgorithm": "md5", "tupleSize": 2, "numberOfTuples": 2, "shortObjectRoot": True},
      ["object-01", "../x", "x  y"]),
@@ -545,7 +598,8 @@ SYS_LAYOUTS = [   # (extension, configuration, ids that are also valid relative 
     ("0006", {"extensionName": n("0006"), "delimiter": "Edu/"},
      ["https://institution.edu/3448793", "https://institution.EDU/q", "https://institution.edu/abc/edu/f8.05v", "no-delimiter"], ["https://institution.EDU/", "edu/"]),
     ("0007", {"extensionName": n("0007"), "delimiter": ":", "tupleSize": 3, "numberOfTuples": 2, "zeroPadding": "left", "reverseObjectRoot": False},
-     ["urn:obj:001", "ns:12", "abc123", "ns:1234567890"], ["urn:", "urn:\u00e9", "\u00fcber"]),
+     ["urn:obj:001", "ns:12", "abc123", "ns:1234567890", "ns: \u007f"],
+     ["urn:", "urn:\u00e9", "\u00fcber", "urn:a\u0001b", "\u001f", "ns:12\t"]),     # control characters: fix 970818d
     ("0007", {"extensionName": n("0007"), "delimiter": "edu/", "tupleSize": 4, "numberOfTuples": 2, "zeroPadding": "right", "reverseObjectRoot": True},
      ["https://institution.EDU/3448793", "https://institution.edu/abc/edu/f8.05v", "abc123", "namespace:12887296"], ["x.Edu/", "edu/\u00e9"]),
 ]
@@ -561,6 +615,14 @@ FORBIDDEN = [
     ("0007", {"extensionName": n("0007"), "delimiter": ":", "tupleSize": 33, "numberOfTuples": 3}),
     ("0007", {"extensionName": n("0007"), "delimiter": "", "tupleSize": 3, "numberOfTuples": 3}),
     ("0002", {"extensionName": n("0004")}),
+    # fix d1aca14: numbers above 32
+    ("0004", {"extensionName": n("0004"), "tupleSize": 33, "numberOfTuples": 1}),
+    ("0003", {"extensionName": n("0003"), "digestAlgorithm": "sha512", "tupleSize": 1, "numberOfTuples": 64}),
+    ("0004", {"extensionName": n("0004"), "tupleSize": 2 ** 32, "numberOfTuples": 2 ** 32}),
+    ("0003", {"extensionName": n("0003"), "tupleSize": 2 ** 64 - 1, "numberOfTuples": 2 ** 64 - 1}),
+    # fix a91c61b: shortObjectRoot with the whole digest in the tuples
+    ("0004", {"extensionName": n("0004"), "digestAlgorithm": "md5", "tupleSize": 2, "numberOfTuples": 16, "shortObjectRoot": True}),
+    ("0004", {"extensionName": n("0004"), "tupleSize": 4, "numberOfTuples": 16, "shortObjectRoot": True}),
 ]
 
 
@@ -707,6 +769,6 @@ def run(ctx):
     ctx.assumptions.append("Unicode case mapping (str::to_lowercase, str::to_uppercase, char::to_lowercase) is taken from the Rust standard library through the harness; it is an input of model and oracle, not modelled")
     ctx.assumptions.append("hex digests of ids come from Python hashlib (md5, sha1, sha256, sha512, sha512/256, blake2b-160/256/384/512); the model takes the digest as an argument and checks its length/alphabet")
     ctx.assumptions.append("config.json is compared from its parsed JSON value (object keys the struct knows, positional array form, or 'not a JSON object'); duplicate keys are not generated")
-    ctx.assumptions.append("correspondence uses the debug build (usize overflow in tupleSize*numberOfTuples is a panic); the release-mode wrap is modelled (new false) but not compared")
+    ctx.assumptions.append("correspondence uses the debug build (a usize overflow would be a panic); since the bound 32 is tested before tupleSize*numberOfTuples is computed the product cannot overflow, and C11_config_release_is_debug proves that the model's release arithmetic (new false) gives the same results")
     return common.finish_with_proof(ctx, proof,
         rule="5 extensions x configuration grid (all 34x34 tupleSize/numberOfTuples pairs for new(); algorithms, shortObjectRoot, 27 delimiters, padding side, reversal, ill-typed and positional configs) x id pool (spec examples, percent-needing, 99/100/101-char encodings, 300-byte, shorter than the tuple width, delimiter repeated/at either end/case variants, length-changing case mappings, control chars, '/', '..', random); distinct = distinct (extension, config text, id, outcome class); plus system-level object directories")
